@@ -1,1 +1,453 @@
-/- property theorems for C15 (filled in below) -/
+/-
+C15 — reflections, their walls and isometry fixed points correspond to each other.
+Only property theorems and non-vacuity examples live here; helper lemmas are in
+`GT.Lemmas.Reflect`.  Model: `GT.Model.Reflect`.
+
+Contracts (assumed, written as hypotheses): `np.linalg.inv` (`Dinv * D = 1`), the frame
+completion inside `spacelike_to` (`T J Tᵀ = J`, row 1 the normalised normal), `np.linalg.eig`
+(each returned vector is an eigenvector; the selection logic is about the order in which they
+are handed back).
+-/
+import GT.Lemmas.Reflect
+import GT.Model.Isometry
+import Mathlib.Tactic.NormNum
+import Mathlib.Tactic.FinCases
+
+open Finset BigOperators Matrix
+
+set_option linter.unusedSectionVars false
+
+namespace GT.C15
+open GT GT.Targets GT.Reflect
+
+section field
+variable {K : Type*} [Field K] {n : ℕ}
+
+/-! ## the reflection across a hyperplane -/
+
+/-- `H.reflection_across()` (closed form `R = 1 − 2 J dᵀ d/⟨d,d⟩`) is an involution -/
+theorem reflect_involutive (d : Fin (n + 1) → K) (hd : mink d d ≠ 0) :
+    reflMat d * reflMat d = 1 := by
+  ext i j
+  have h := congrFun (reflApply_invol d (Pi.single i 1) hd) j
+  rw [← vecMul_reflMat, ← vecMul_reflMat, vecMul_vecMul, single_one_vecMul] at h
+  rw [Matrix.one_apply]
+  simpa [Pi.single_apply, eq_comm] using h
+
+/-- … an isometry: `R J Rᵀ = J` -/
+theorem reflect_isometry (d : Fin (n + 1) → K) (hd : mink d d ≠ 0) :
+    reflMat d * Jm * (reflMat d)ᵀ = Jm := by
+  ext i j
+  have h := mink_reflApply d (Pi.single i 1) (Pi.single j 1) hd
+  rw [← vecMul_reflMat, ← vecMul_reflMat, mink_eq_dotProduct, mink_eq_dotProduct,
+    single_one_vecMul, single_one_vecMul] at h
+  have e1 : (reflMat d).row i ⬝ᵥ Jm *ᵥ (reflMat d).row j
+      = (reflMat d * (Jm : Matrix (Fin (n + 1)) (Fin (n + 1)) K) * (reflMat d)ᵀ) i j := by
+    rw [Matrix.mul_assoc, Matrix.mul_apply']
+    rfl
+  have e2 : (Pi.single i (1 : K)) ⬝ᵥ Jm *ᵥ Pi.single j 1 = (Jm : Matrix _ _ K) i j := by
+    rw [mulVec_single_one, single_dotProduct]; simp
+  rw [← e1, ← e2]; exact h
+
+/-- … orientation reversing: `det R = -1` -/
+theorem reflect_det (d : Fin (n + 1) → K) (hd : mink d d ≠ 0) : (reflMat d).det = -1 := by
+  have e : reflMat d = 1 + replicateCol (Fin 1) (fun i => -2 * Jvec d i / mink d d)
+      * replicateRow (Fin 1) d := by
+    ext i j
+    simp only [reflMat, Matrix.add_apply, Matrix.one_apply, Matrix.mul_apply, replicateCol_apply,
+      replicateRow_apply, Finset.univ_unique, Finset.sum_singleton]
+    ring
+  have : d ⬝ᵥ (fun i => -2 * Jvec d i / mink d d) = -2 := by
+    unfold dotProduct
+    have h : ∀ i, d i * (-2 * Jvec d i / mink d d) = (d i * Jvec d i) * (-2 / mink d d) := by
+      intro i; ring
+    simp only [h]
+    rw [← Finset.sum_mul, Jvec_dot]
+    field_simp
+  rw [e]
+  refine (det_one_add_replicateCol_mul_replicateRow _ _).trans ?_
+  rw [this]; ring
+
+/-- … fixing every vector of the hyperplane `d^⊥` (in particular every point and every ideal
+point of the wall) and negating the normal -/
+theorem reflect_fixes_wall (d v : Fin (n + 1) → K) (h : mink v d = 0) :
+    v ᵥ* reflMat d = v := by rw [vecMul_reflMat]; exact reflApply_fix d v h
+
+theorem reflect_negates_normal (d : Fin (n + 1) → K) (hd : mink d d ≠ 0) :
+    d ᵥ* reflMat d = fun i => -d i := by rw [vecMul_reflMat]; exact reflApply_normal d hd
+
+/-- the reflection does not depend on the scale of the normal -/
+theorem reflMat_smul (d : Fin (n + 1) → K) (c : K) (hc : c ≠ 0) (hd : mink d d ≠ 0) :
+    reflMat (fun i => c * d i) = reflMat d := by
+  ext i j
+  unfold reflMat Jvec
+  rw [mink_mul_left, mink_mul_right]
+  split_ifs <;> field_simp
+
+/-- the matrix the code actually computes, `inv(D) · J · D` with `D = [normal; ideal basis]`,
+is the closed-form reflection: for every `D` whose first row is `d`, whose other rows are
+orthogonal to `d`, and every left inverse `Dinv` of `D` -/
+theorem reflLiteral_eq (d : Fin (n + 1) → K) (hd : mink d d ≠ 0)
+    (D Dinv : Matrix (Fin (n + 1)) (Fin (n + 1)) K) (hinv : Dinv * D = 1)
+    (h0 : D 0 = d) (horth : ∀ i, i ≠ 0 → mink (D i) d = 0) :
+    reflLiteral Dinv D = reflMat d := by
+  have key : D * reflMat d = Jm * D := by
+    ext i j
+    have e1 : (D * reflMat d) i j = (D i ᵥ* reflMat d) j := by
+      rw [Matrix.mul_apply]; rfl
+    have e2 : ((Jm : Matrix (Fin (n + 1)) (Fin (n + 1)) K) * D) i j
+        = (if i = 0 then (-1 : K) else 1) * D i j := by
+      unfold Jm; rw [Matrix.diagonal_mul]
+    rw [e1, e2]
+    by_cases hi : i = 0
+    · subst hi
+      rw [h0, reflect_negates_normal d hd]; simp [← h0]
+    · rw [reflect_fixes_wall d (D i) (horth i hi)]; simp [hi]
+  unfold reflLiteral
+  rw [Matrix.mul_assoc, ← key, ← Matrix.mul_assoc, hinv, Matrix.one_mul]
+
+/-! ## recovering the hyperplane from the reflection -/
+
+/-- the `(-1)`-eigenspace of the reflection is the line of the normal: whatever eigenvector
+`np.linalg.eig` returns for the eigenvalue `-1`, it is a multiple of `d`, so
+`from_reflection(reflection_across(H))` has the normal of `H` -/
+theorem neg_eigvec_unique [NeZero (2 : K)] (d v : Fin (n + 1) → K) (hd : mink d d ≠ 0)
+    (hv : v ᵥ* reflMat d = fun i => -v i) :
+    v = fun i => (mink v d / mink d d) * d i := by
+  rw [vecMul_reflMat] at hv
+  funext i
+  have := congrFun hv i
+  unfold reflApply at this
+  have h2 : (2 : K) ≠ 0 := NeZero.ne 2
+  have h3 : 2 * (v i * mink d d - mink v d * d i) = 0 := by
+    field_simp at this
+    linear_combination this
+  have h4 : v i * mink d d - mink v d * d i = 0 := by
+    rcases mul_eq_zero.1 h3 with h | h
+    · exact absurd h h2
+    · exact h
+  field_simp
+  linear_combination h4
+
+/-- … and therefore defines the same reflection, i.e. the same hyperplane -/
+theorem fromReflection_roundtrip [NeZero (2 : K)] (d v : Fin (n + 1) → K) (hd : mink d d ≠ 0)
+    (hv0 : v ≠ 0) (hv : v ᵥ* reflMat d = fun i => -v i) : reflMat v = reflMat d := by
+  have h := neg_eigvec_unique d v hd hv
+  have hc : mink v d / mink d d ≠ 0 := by
+    intro h0; apply hv0; rw [h, h0]; funext i; simp
+  rw [h]; exact reflMat_smul d _ hc hd
+
+/-- `Hyperplane._compute_ideal_basis`: for any form-preserving `T` whose row 1 is the
+(normalised) normal — the contract of `spacelike_to` — the rows after the first of the
+hyperplane data are lightlike and orthogonal to the normal: they are ideal points of the wall.
+In dimension 2 (`n = 1`) these two rows are the endpoints of `Geodesic.from_reflection`. -/
+theorem hyperplaneData_spec (T : Matrix (Fin (n + 2)) (Fin (n + 2)) K) (hT : T * Jm * Tᵀ = Jm)
+    (hn : 0 < n) (normal : Fin (n + 2) → K) (h1 : T 1 = normal) (j : Fin (n + 1)) :
+    hyperplaneData T normal 0 = normal ∧
+    mink (hyperplaneData T normal j.succ) (hyperplaneData T normal j.succ) = 0 ∧
+    mink (hyperplaneData T normal j.succ) normal = 0 := by
+  have hrow : hyperplaneData T normal j.succ = stdIdeal j ᵥ* T := by
+    simp [hyperplaneData]
+  have hnorm : normal = Pi.single 1 1 ᵥ* T := by rw [single_one_vecMul, ← h1]; rfl
+  -- the standard vectors are lightlike and orthogonal to e₁
+  have hs1 : mink (stdIdeal (K := K) j) (stdIdeal j) = 0 := by
+    rw [mink_eq_sum]
+    have hsplit : ∀ i : Fin (n + 2), stdIdeal (K := K) j i * ((if i = 0 then (-1 : K) else 1) * stdIdeal j i)
+        = (if i = 0 then (-1 : K) else 0)
+          + (if i.val = j.val + 2 ∨ (j.val = n ∧ i.val = n + 1) then (1 : K) else 0) := by
+      intro i
+      unfold stdIdeal
+      by_cases h0 : i = 0
+      · subst h0; simp
+      · have h0' : i.val ≠ 0 := fun h => h0 (Fin.ext h)
+        simp only [h0, h0', if_false]
+        by_cases ha : i.val = j.val + 2
+        · simp [ha]
+        · by_cases hb : j.val = n ∧ i.val = n + 1
+          · simp [ha, hb]
+          · simp [ha, hb]
+    simp only [hsplit]
+    rw [Finset.sum_add_distrib]
+    have s1 : ∑ i : Fin (n + 2), (if i = 0 then (-1 : K) else 0) = -1 := by simp
+    -- exactly one index satisfies the second condition
+    have s2 : ∑ i : Fin (n + 2),
+        (if i.val = j.val + 2 ∨ (j.val = n ∧ i.val = n + 1) then (1 : K) else 0) = 1 := by
+      by_cases hj : j.val = n
+      · rw [Finset.sum_eq_single (Fin.last (n + 1))]
+        · simp [hj]
+        · intro b _ hb
+          have : b.val ≠ n + 1 := fun h => hb (Fin.ext h)
+          have hb2 : b.val < n + 2 := b.isLt
+          rw [if_neg]; rintro (h | ⟨_, h⟩) <;> omega
+        · simp
+      · have hjlt : j.val + 2 < n + 2 := by have := j.isLt; omega
+        rw [Finset.sum_eq_single (⟨j.val + 2, hjlt⟩ : Fin (n + 2))]
+        · simp
+        · intro b _ hb
+          have : b.val ≠ j.val + 2 := fun h => hb (Fin.ext h)
+          rw [if_neg]; rintro (h | ⟨h, _⟩) <;> omega
+        · simp
+    rw [s1, s2]; ring
+  have hs2 : mink (stdIdeal (K := K) j) (Pi.single 1 1) = 0 := by
+    rw [mink_eq_sum]
+    apply Finset.sum_eq_zero
+    intro i _
+    by_cases hi : i = 1
+    · subst hi
+      have : stdIdeal (K := K) j 1 = 0 := by
+        unfold stdIdeal
+        have h1v : ((1 : Fin (n + 2)).val) = 1 := by simp
+        rw [h1v]
+        simp
+        omega
+      rw [this]; ring
+    · simp [Pi.single_apply, hi]
+  refine ⟨by simp [hyperplaneData], ?_, ?_⟩
+  · rw [hrow, mink_vecMul T hT, hs1]
+  · rw [hrow, hnorm, mink_vecMul T hT, hs2]
+
+/-- the form matrix of this file is the one of the isometry model (`GT.Iso.minkJ`, C02) -/
+theorem Jm_eq_minkJ : (Jm : Matrix (Fin (n + 1)) (Fin (n + 1)) K) = GT.Iso.minkJ n := by
+  unfold Jm GT.Iso.minkJ GT.Iso.minkDiag
+  congr 1
+  funext i
+  refine Fin.cases ?_ (fun j => ?_) i
+  · simp
+  · simp [Fin.succ_ne_zero]
+
+/-- `hyperplaneData_spec` with the contract stated in the vocabulary of C02: for the repaired
+`spacelike_to` (frame `(t, v̂)` completed by `find_isometry`, model `GT.GS.spacelikeTo`),
+`GT.C02.spacelikeTo_isIso` provides `GT.Iso.IsIso T`; its row 1 is the normalised normal because
+Gram–Schmidt leaves `v̂ ⟂ t` alone.  No row permutation is involved any more. -/
+theorem hyperplaneData_spec_isIso (T : Matrix (Fin (n + 2)) (Fin (n + 2)) K)
+    (hT : GT.Iso.IsIso T) (hn : 0 < n) (normal : Fin (n + 2) → K) (h1 : T 1 = normal)
+    (j : Fin (n + 1)) :
+    hyperplaneData T normal 0 = normal ∧
+    mink (hyperplaneData T normal j.succ) (hyperplaneData T normal j.succ) = 0 ∧
+    mink (hyperplaneData T normal j.succ) normal = 0 := by
+  apply hyperplaneData_spec T _ hn normal h1 j
+  rw [Jm_eq_minkJ]; exact hT
+
+end field
+
+/-! ## the eigenvalue test of `from_reflection` -/
+
+section ordered
+variable {K : Type*} [Field K] [LinearOrder K] [IsStrictOrderedRing K]
+
+/-- a reflection's spectrum `{-1, 1, …, 1}` (in any order) passes the test -/
+theorem fromReflection_accepts (ε : K) (hε : 0 ≤ ε) (evals : List K) (k : ℕ)
+    (h : evals.Perm ((-1 : K) :: List.replicate k 1)) : isReflSpectrum ε evals = true := by
+  have hlen : evals.length = k + 1 := by rw [h.length_eq]; simp
+  have hsorted : ((-1 : K) :: List.replicate k 1).Pairwise (fun a b => decide (a ≤ b) = true) := by
+    rw [List.pairwise_cons]
+    refine ⟨fun a ha => ?_, ?_⟩
+    · rw [List.eq_of_mem_replicate ha]; simp
+    · rw [List.pairwise_replicate]; simp
+  have hs : evals.mergeSort (fun a b => decide (a ≤ b)) = (-1 : K) :: List.replicate k 1 := by
+    have hp : (evals.mergeSort (fun a b => decide (a ≤ b))).Perm ((-1 : K) :: List.replicate k 1) :=
+      (List.mergeSort_perm _ _).trans h
+    have hsort := List.pairwise_mergeSort (le := fun (a b : K) => decide (a ≤ b))
+      (fun a b c hab hbc => by simp at *; exact le_trans hab hbc)
+      (fun a b => by simp; exact le_total a b) evals
+    exact List.Perm.eq_of_pairwise (fun a b _ _ hab hba => by
+      simp at hab hba; exact le_antisymm hab hba) hsort hsorted hp
+  unfold isReflSpectrum
+  rw [hs, hlen]
+  simp only [expectedEvals, List.zip_cons_cons, List.all_cons, List.all_eq_true, Bool.and_eq_true,
+    decide_eq_true_eq]
+  refine ⟨by simpa using hε, ?_⟩
+  intro p hp
+  have := List.of_mem_zip hp
+  rw [List.eq_of_mem_replicate this.1, List.eq_of_mem_replicate this.2]; simpa using hε
+
+/-- **a non-reflection is rejected**: if the test passes (with `ε < 1`), the spectrum has
+exactly one eigenvalue within `ε` of `-1` and every other eigenvalue within `ε` of `1` — so an
+isometry whose spectrum is not of this form (identity, rotations, loxodromics, products of
+several reflections) raises `GeometryError` -/
+theorem fromReflection_rejects (ε : K) (hε : ε < 1) (evals : List K)
+    (h : isReflSpectrum ε evals = true) (hne : evals ≠ []) :
+    ∃ a rest, evals.Perm (a :: rest) ∧ |a + 1| ≤ ε ∧ ∀ x ∈ rest, |x - 1| ≤ ε := by
+  unfold isReflSpectrum at h
+  set s := evals.mergeSort (fun a b => decide (a ≤ b)) with hs
+  have hp : s.Perm evals := List.mergeSort_perm _ _
+  have hl : s.length = evals.length := hp.length_eq
+  cases hse : s with
+  | nil =>
+    exfalso; apply hne
+    have : evals.length = 0 := by rw [← hl, hse]; rfl
+    exact List.length_eq_zero_iff.1 this
+  | cons a rest =>
+    refine ⟨a, rest, (hse ▸ hp).symm, ?_, ?_⟩
+    · rw [hse] at h hl
+      have : evals.length = rest.length + 1 := by rw [← hl]; rfl
+      rw [this] at h
+      simp [expectedEvals] at h
+      exact h.1
+    · rw [hse] at h hl
+      have hlen : evals.length = rest.length + 1 := by rw [← hl]; rfl
+      rw [hlen] at h
+      simp only [expectedEvals, List.zip_cons_cons, List.all_cons, Bool.and_eq_true] at h
+      intro x hx
+      have hall := h.2
+      rw [List.all_eq_true] at hall
+      obtain ⟨i, hi, rfl⟩ := List.getElem_of_mem hx
+      have hmem : (rest[i], (1 : K)) ∈ rest.zip (List.replicate rest.length 1) := by
+        rw [List.mem_iff_getElem]
+        refine ⟨i, by simp [hi], by simp⟩
+      simpa using hall _ hmem
+
+/-- the second stage of the acceptance decision: a `(-1)`-eigenvector that is not spacelike is
+refused whatever the spectrum -/
+theorem fromReflection_rejects_nonspacelike (ε : K) (evals : List K) (vnorm : K)
+    (h : vnorm ≤ ε) : fromReflectionAccepts ε evals vnorm = false := by
+  unfold fromReflectionAccepts
+  simp [not_lt.2 h]
+
+/-- … and this is what separates a reflection from the point reflection `x ↦ x − 2⟨x,p⟩/⟨p,p⟩ p`
+about a *timelike* `p` (the negatively scaled half-turn), which is also an involutive isometry with
+spectrum `(-1, 1, …, 1)`: every `(-1)`-eigenvector of `reflMat d` has Minkowski norm
+`(⟨v,d⟩/⟨d,d⟩)²·⟨d,d⟩`, of the sign of `⟨d,d⟩` — spacelike for a reflection across a wall,
+timelike for the point reflection, which is therefore rejected -/
+theorem neg_eigvec_sign (d v : Fin (n + 1) → K) (hd : mink d d ≠ 0)
+    (hv : v ᵥ* reflMat d = fun i => -v i) :
+    mink v v = (mink v d / mink d d) ^ 2 * mink d d := by
+  have h2 : NeZero (2 : K) := ⟨two_ne_zero⟩
+  have h := neg_eigvec_unique d v hd hv
+  have e : mink (fun i => (mink v d / mink d d) * d i) (fun i => (mink v d / mink d d) * d i)
+      = (mink v d / mink d d) ^ 2 * mink d d := by
+    rw [mink_mul_left, mink_mul_right]; ring
+  rw [← e, ← h]
+
+/-! ## fixed points: selection of the eigenvectors -/
+
+theorem keyLe_trans (ε : K) (a b c : EigInfo K) (h1 : keyLe ε a b = true)
+    (h2 : keyLe ε b c = true) : keyLe ε a c = true := by
+  unfold keyLe at *; simp at *; exact le_trans h1 h2
+
+theorem keyLe_total (ε : K) (a b : EigInfo K) : (keyLe ε a b || keyLe ε b a) = true := by
+  unfold keyLe; simp; exact le_total _ _
+
+/-- the eigenvectors are handed back in an order that is a permutation of what `eig`
+returned: every reported point is one of the eigenvectors (hence, by the `eig` contract, fixed
+by the isometry as a projective point) -/
+theorem fixOrder_perm (ε : K) (es : List (EigInfo K)) :
+    (fixOrder ε es).Perm (List.range es.length) := by
+  unfold fixOrder
+  have h1 := (List.mergeSort_perm ((List.range es.length).zip es)
+    (fun a b => keyLe ε a.2 b.2))
+  have h2 := (List.reverse_perm _).trans h1
+  have h3 := h2.map Prod.fst
+  refine h3.trans ?_
+  rw [← List.unzip_fst, List.unzip_zip (by simp)]
+
+/-- the first reported eigenvector has the largest key `(in ball, -|Im λ|, |λ|)`: every other
+reported one compares `≤` to it -/
+theorem fixOrder_head_max (ε : K) (es : List (EigInfo K)) (i₀ : ℕ) (rest : List ℕ)
+    (h : fixOrder ε es = i₀ :: rest) (hi₀ : i₀ < es.length) :
+    ∀ i, (hi : i < es.length) → keyLe ε es[i] es[i₀] = true := by
+  unfold fixOrder at h
+  set srt := ((List.range es.length).zip es).mergeSort (fun a b => keyLe ε a.2 b.2) with hsrt
+  have hsorted : srt.Pairwise (fun a b => keyLe ε a.2 b.2 = true) :=
+    List.pairwise_mergeSort (le := fun (a b : ℕ × EigInfo K) => keyLe ε a.2 b.2)
+      (fun a b c => keyLe_trans ε a.2 b.2 c.2) (fun a b => keyLe_total ε a.2 b.2) _
+  have hperm : srt.Perm ((List.range es.length).zip es) := List.mergeSort_perm _ _
+  have hrev : srt.reverse.Pairwise (fun a b => keyLe ε b.2 a.2 = true) :=
+    List.pairwise_reverse.2 hsorted
+  -- every element of the zipped list is (i, es[i])
+  have hmem : ∀ p ∈ srt, ∃ (hp : p.1 < es.length), p.2 = es[p.1] := by
+    intro p hp
+    have := (hperm.mem_iff).1 hp
+    rw [List.mem_iff_getElem] at this
+    obtain ⟨k, hk, rfl⟩ := this
+    simp at hk
+    simp [hk]
+  cases hr : srt.reverse with
+  | nil => rw [hr] at h; simp at h
+  | cons p ps =>
+    rw [hr] at h hrev
+    simp only [List.map_cons, List.cons.injEq] at h
+    obtain ⟨hp1, _⟩ := h
+    have hpmem : p ∈ srt := by
+      have : p ∈ srt.reverse := by rw [hr]; simp
+      simpa using this
+    obtain ⟨hplt, hp2⟩ := hmem p hpmem
+    intro i hi
+    -- (i, es[i]) is in srt, hence in srt.reverse = p :: ps
+    have him : (i, es[i]) ∈ srt := by
+      apply (hperm.mem_iff).2
+      rw [List.mem_iff_getElem]
+      exact ⟨i, by simp [hi], by simp⟩
+    have him' : (i, es[i]) ∈ p :: ps := by rw [← hr]; simpa using him
+    have hkey : keyLe ε es[i] p.2 = true := by
+      rcases List.mem_cons.1 him' with heq | hin
+      · rw [← heq]
+        have := keyLe_total ε es[i] es[i]; simpa using this
+      · exact (List.pairwise_cons.1 hrev).1 _ hin
+    have : p.2 = es[i₀] := by
+      rw [hp2]; congr 1
+    rw [← this]; exact hkey
+
+/-- **fixed point in the closed ball**: if `eig` returned at least one eigenvector in the closed
+ball (Minkowski norm `≤ ε`), the first reported point is in the closed ball -/
+theorem fixedPoint_in_ball (ε : K) (es : List (EigInfo K)) (i₀ : ℕ) (rest : List ℕ)
+    (h : fixOrder ε es = i₀ :: rest) (hi₀ : i₀ < es.length)
+    (i : ℕ) (hi : i < es.length) (hball : es[i].norm ≤ ε) : es[i₀].norm ≤ ε := by
+  have := fixOrder_head_max ε es i₀ rest h hi₀ i hi
+  unfold keyLe EigInfo.key at this
+  simp only [decide_eq_true_eq] at this
+  have h1 : (es[i]).inPlane ε ≤ (es[i₀]).inPlane ε := by
+    rcases Prod.Lex.toLex_le_toLex.1 this with hlt | ⟨heq, _⟩
+    · exact le_of_lt hlt
+    · exact le_of_eq heq
+  unfold EigInfo.inPlane at h1
+  rw [if_neg (not_lt.2 hball)] at h1
+  by_contra hcon
+  rw [if_pos (not_le.1 hcon)] at h1
+  omega
+
+/-- **attracting first**: among eigenvectors in the closed ball with real eigenvalue the first
+reported one has the largest `|λ|`; for a loxodromic isometry (`λ₁ > 1 > λ₂ > 0` with lightlike
+eigenvectors, all other eigenvectors spacelike) this is the attracting endpoint -/
+theorem attracting_first (ε : K) (es : List (EigInfo K)) (i₀ : ℕ) (rest : List ℕ)
+    (h : fixOrder ε es = i₀ :: rest) (hi₀ : i₀ < es.length)
+    (i : ℕ) (hi : i < es.length) (hball : es[i].norm ≤ ε) (hreal : es[i].absIm = 0)
+    (hnn : ∀ j, (hj : j < es.length) → 0 ≤ es[j].absIm) :
+    es[i₀].norm ≤ ε ∧ es[i₀].absIm = 0 ∧ es[i].absVal ≤ es[i₀].absVal := by
+  have hb := fixedPoint_in_ball ε es i₀ rest h hi₀ i hi hball
+  have := fixOrder_head_max ε es i₀ rest h hi₀ i hi
+  unfold keyLe EigInfo.key at this
+  simp only [decide_eq_true_eq] at this
+  have hin : (es[i]).inPlane ε = (es[i₀]).inPlane ε := by
+    unfold EigInfo.inPlane; rw [if_neg (not_lt.2 hball), if_neg (not_lt.2 hb)]
+  rcases Prod.Lex.toLex_le_toLex.1 this with hlt | ⟨_, h2⟩
+  · simp only at hlt; omega
+  · simp only at h2
+    rcases Prod.Lex.toLex_le_toLex.1 h2 with hlt | ⟨heq, h3⟩
+    · simp only at hlt
+      rw [hreal] at hlt
+      have := hnn i₀ hi₀
+      linarith
+    · simp only at heq h3
+      rw [hreal] at heq
+      refine ⟨hb, ?_, h3⟩
+      have : es[i₀].absIm = -(-es[i₀].absIm) := by ring
+      rw [this, ← heq]; ring
+
+end ordered
+
+/-! ## non-vacuity -/
+
+/-- a spacelike normal in `R^{2,1}` -/
+example : mink (![1/5, 1, 3/10] : Fin 3 → ℚ) ![1/5, 1, 3/10] ≠ 0 := by
+  simp [mink, dot, Fin.sum_univ_succ, Fin.tail]; norm_num
+
+/-- the spectrum of a reflection of `H²`, in the order `eig` might return it, passes -/
+example : isReflSpectrum (1 / 100000000 : ℚ) [1, -1, 1] = true :=
+  fromReflection_accepts _ (by norm_num) _ 2 (List.Perm.swap _ _ _)
+
+/-- the selection always reports something when `eig` returned something -/
+example (e : EigInfo ℚ) : fixOrder (1 / 100000000 : ℚ) [e] = [0] := by
+  simp [fixOrder]
+
+end GT.C15
